@@ -740,9 +740,12 @@ func (s *Sim) Run(estSteps int) {
 			s.Deadlocked = "run cut short: a goroutine started by the library panicked"
 			break
 		}
-		if s.step-s.step0 > 8*s.MaxSteps+1000 {
+		if s.step-s.step0 > 64*s.MaxSteps+200000 {
+			// (generous: with goroutines of its own a library spends many steps
+			// on tasks that only retry a wait; a run that really does not end is
+			// also caught by the deadlock detector and the watchdog)
 			raceEnable()
-			fatal("INFRA: simulated run does not terminate (step cap exceeded 8x)")
+			fatal("INFRA: simulated run does not terminate (step cap exceeded 64x)")
 		}
 		if s.GCNum > 0 && s.Sched.Coin(s.GCNum, FaultDen) {
 			s.GC()
